@@ -138,9 +138,30 @@ Print Assumptions rollback_inplace_refuted.
 Theorem rollback_creation_refuted : exists ops ds, c02_k 2 ops (mrun ops) ds = true /\ atomic_ok ops (mrun ops) ds = false.
 Proof. exists (fst w2_k2), (snd w2_k2). exact rollback_creation_refuted_l. Qed.
 Print Assumptions rollback_creation_refuted.
-Theorem drop_refuted : exists ops ds, c02_k 4 ops (mrun ops) ds = true /\ atomic_ok ops (mrun ops) ds = false.
-Proof. exists (fst w2_k4), (snd w2_k4). exact drop_refuted_l. Qed.
-Print Assumptions drop_refuted.
+(** C02-K4 (no Drop for Session) is repaired by 3eb02b5: on the pre-repair model ([step_pre]) a session dropped with
+    an open transaction leaves its writes, on the current model the dump after the drop equals the dump before
+    the begin *)
+Theorem drop_pre_refuted : exists ops ds,
+  atomic_ok ops (mrun_pre ops) ds = false /\ atomic_ok ops (mrun ops) ds = true /\ c02_checked ops (mrun ops) ds = 1.
+Proof.
+  exists (fst w2_k4_plain), (snd w2_k4_plain). destruct drop_pre_refuted_l as [H1 [H2 [H3 _]]]. auto.
+Qed.
+Print Assumptions drop_pre_refuted.
+(** dropping a session with an open transaction IS rolling that transaction back: same state as [Rollback],
+    the transaction is Aborted, none of its versions exists for any reader, its triple buffer is discarded;
+    dropping a session without transaction does nothing *)
+Theorem drop_rolls_back : forall ops s t, sess (final ops) s = Some t ->
+  let st' := fst (step (final ops) (DropSession s)) in
+  st' = fst (step (final ops) (Rollback s))
+  /\ snd (step (final ops) (DropSession s)) = OUnit
+  /\ tm_state st' t = Some Aborted
+  /\ (forall n v, In v (n_chain st' n) \/ In v (e_chain st' n) -> v_by v <> t)
+  /\ rdf st' = rdf (final ops) /\ rdf_buf st' t = [] /\ sess st' s = None.
+Proof. exact drop_rolls_back_l. Qed.
+Print Assumptions drop_rolls_back.
+Theorem drop_idle : forall st s, sess st s = None -> step st (DropSession s) = (st, OUnit).
+Proof. exact drop_idle_l. Qed.
+Print Assumptions drop_idle.
 Theorem commit_epoch_refuted : exists ops ds, c02_k 5 ops (mrun ops) ds = true /\ atomic_ok ops (mrun ops) ds = false.
 Proof. exists (fst w2_k5), (snd w2_k5). exact commit_epoch_refuted_l. Qed.
 Print Assumptions commit_epoch_refuted.
